@@ -13,9 +13,11 @@ AllFinV(v)   == \A i \in 1..Len(v) : IsFin(v[i])
 AllFinM(A)   == \A i \in 1..Len(A) : AllFinV(A[i])
 
 RECURSIVE MaxAbsSeq(_, _)
-MaxAbsSeq(v, i) == IF i > Len(v) THEN Zero ELSE Max(Abs(v[i]), MaxAbsSeq(v, i + 1))
-MaxAbsV(v) == MaxAbsSeq(v, 1)
-MaxAbsM(A) == MaxAbsSeq([i \in 1..Len(A) |-> MaxAbsV(A[i])], 1)
+(* (LET: an operator argument is re-evaluated at every use, which would make this recursion exponential) *)
+MaxAbsSeq(v, i) == IF i > Len(v) THEN Zero
+                   ELSE LET a == Abs(v[i])  r == MaxAbsSeq(v, i + 1) IN IF Lt(a, r) THEN r ELSE a
+MaxAbsV(v) == MaxAbsSeq(DM!Eager(v), 1)
+MaxAbsM(A) == MaxAbsSeq(DM!Eager([i \in 1..Len(A) |-> MaxAbsV(A[i])]), 1)
 Sum1V(v)   == DM!Sum([i \in 1..Len(v) |-> Abs(v[i])])
 Sum1M(A)   == DM!Sum([i \in 1..Len(A) |-> Sum1V(A[i])])
 
